@@ -137,6 +137,13 @@ pub fn resolve_local<CT>(
                                 resolved: ResolvedRecord::NonAuthoritative { rrs, soa_rr },
                             }
                         }
+                        // local resolution reports delegations as
+                        // `LocalResolutionResult::Delegation`, never as a
+                        // finished referral
+                        ResolvedRecord::Referral { .. } => LocalResolutionResult::CNAME {
+                            rrs,
+                            cname_question,
+                        },
                     },
                     Ok(LocalResolutionResult::Partial { rrs: mut cname_rrs }) => {
                         tracing::trace!("got partial cname answer");
@@ -353,8 +360,8 @@ impl From<LocalResolutionResult> for ResolvedRecord {
                 ResolvedRecord::NonAuthoritative { rrs, soa_rr: None }
             }
             LocalResolutionResult::Delegation { rrs, soa_rr, .. } => {
-                if let Some(soa_rr) = soa_rr {
-                    ResolvedRecord::Authoritative { rrs, soa_rr }
+                if soa_rr.is_some() {
+                    ResolvedRecord::Referral { ns_rrs: rrs }
                 } else {
                     ResolvedRecord::NonAuthoritative { rrs, soa_rr: None }
                 }
